@@ -2,7 +2,7 @@
 """Regenerates MANIFEST.json from the table below (keeps it valid at all times)."""
 import json, os
 HERE = os.path.dirname(os.path.abspath(__file__))
-LOGIX_NOTE = "Trusted: Coq kernel; extraction (ExtrOcamlBasic) + OCaml driver; the hand-written model Model/Logix.v (exec/produce) is tied to /repo only by the differential run: same configurations and request histories through the in-process Message Router object and through the extracted model, compared on reply bytes and a hash of the whole tag-store image after every request, full image at the end.  Scalar CIP types only; requests are dotdicts (wire parsing is C01's business)."
+LOGIX_NOTE = "Trusted: Coq kernel; extraction (ExtrOcamlBasic) + OCaml driver; the hand-written model Model/Logix.v (exec/produce) is tied to /repo only by the differential run: same configurations and request histories (each request as wire bytes through Logix.produce and the Message Router's own parser) through the in-process Message Router object and through the extracted model, compared on reply bytes and a hash of the whole tag-store image after every request, full image at the end.  Scalar CIP types only; requests are dotdicts (wire parsing is C01's business)."
 CLAIMED = {
  'C19': dict(
    text='Coq theorems (Properties/C19.v, closed under the global context) over an executable model of shatter/merge: for every '
@@ -37,14 +37,14 @@ CLAIMED = {
  'C07': dict(
    text='Coq theorems (Properties/C07.v): on a well-formed readable store a Multiple Service Packet yields exactly the replies and final store of its members executed '
         'one by one in order; a refused member changes nothing and leaves its neighbours\' replies as if absent; bundle reply bytes = header, count, offsets, members, '
-        'offset i = 2+2N+sum of earlier lengths.  Tie: correspondence on histories of bundles; oracle = same members bundled vs singly on two identical simulators.',
+        'offset i = 2+2N+sum of earlier lengths.  Tie: correspondence on histories of bundles; oracle = same members bundled vs singly on two identical simulators, and the client half (connector.collect) on the bundle reply vs the members\' replies one per frame.',
    note=LOGIX_NOTE, technique='Coq proof (induction over the member list with readable/well-formed invariants) + correspondence', design='6 C07'),
 
  'C20': dict(
    text='Coq theorems (Properties/C20.v): for every value (any nesting, any payload bytes incl. delimiter/length look-alikes) and any following bytes, '
         'parse(dump v ++ tail) = (v, tail); the streaming machine fed dump v ++ tail in any chunking stops exactly at the end of the message with its payload and '
         'type, converting to v for the supported types; the receive loop tnet_from is chunking-independent and yields every message of a separator-delimited '
-        'stream in order.  Tie: correspondence of tnetstrings.dump/parse, tnet_machine and tnet_from (fake chunked connection) with the extracted model.',
+        'stream in order.  Tie: correspondence of tnetstrings.dump/parse, tnet_machine and tnet_from (fake chunked connection; also with a receive timeout expiring before every chunk) with the extracted model.',
    note='Trusted: Coq kernel; extraction + OCaml driver; hand-written models of tnetstrings and of the 4-state tnet machine / receive loop (not the generic automata '
         'engine) tied by differential runs; floats carried as their str() text (float(str(f))==f checked on samples); only integer spellings dump produces.',
    technique='Coq proof (nested induction over values; phase lemmas for the streaming machine) + correspondence', design='6 C20'),
@@ -54,7 +54,7 @@ CLAIMED = {
         '(or an empty) route path; for a configured path c iff absent/empty/exactly c; a refused request yields encapsulation status 0x08 with the store '
         'untouched and the request never executed, an accepted one is executed exactly as Model.Logix.exec; printing a well-formed route path and parsing '
         'the text yields the same segments.  Tie: correspondence with complete SendRRData frames through logix.process under a UCMM subclass per personality '
-        '(all personalities x request paths x services in thorough) and parse_route_path on text/JSON.',
+        '(all personalities x request paths x services in thorough, incl. address-string links that merely spell the configured number: C15_link_kind), cpppo\'s own client against a simulator configured --route-path 1/0, and parse_route_path on text/JSON.',
    note='Trusted: Coq kernel; extraction + driver; hand-written Model/Route.v tied by the differential run; request frames are built with cpppo\'s own producers; '
         'remote routing (UCMM.route table) not modelled; IPv4 dotted quads only.',
    technique='Coq proof (decision procedure equivalences, text round trip by induction) + exhaustive correspondence on the personality x path grid', design='6 C15'),
